@@ -1,4 +1,4 @@
-package gopacket
+package tcpreader
 
 // Native implementations of the engine intrinsics for counterexample replay:
 // every "symbolic" value is read from the solver's model.
@@ -78,7 +78,6 @@ func verifReached(label string)                         {}
 func verifBarrier(on bool)                              {}
 func verifInput(b []byte)                               {}
 func verifJoin()                                        {}
-func verifPreemptBound(n int)                           {}
 func verifPoolND(on bool)                               {}
 func verifSameBacking(a, b []byte) bool                 { return cap(a) > 0 && cap(b) > 0 && &a[:cap(a)][cap(a)-1] == &b[:cap(b)][cap(b)-1] }
 func verifReachable(root interface{}, b []byte) bool    { return false }
